@@ -98,7 +98,8 @@ package fans
 //@   ensures result == fan.Config.NeverStop
 //@   modifies nothing
 //@ func (*FileFan).GetMinPwm
-//@   props C13
+//@   props C13 C02
+//@   ensures[C02.configured] fan.Config.NeverStop && fan.Config.MinPwm != nil ==> result == *fan.Config.MinPwm
 //@   ensures result == 0
 //@   modifies nothing
 //@ func (*FileFan).GetMaxPwm
@@ -140,7 +141,8 @@ package fans
 //@   ensures result == fan.Config.NeverStop
 //@   modifies nothing
 //@ func (*CmdFan).GetMinPwm
-//@   props C13
+//@   props C13 C02
+//@   ensures[C02.configured] fan.Config.NeverStop && fan.Config.MinPwm != nil ==> result == *fan.Config.MinPwm
 //@   ensures result == 0
 //@   modifies nothing
 //@ func (*CmdFan).GetMaxPwm
